@@ -155,7 +155,7 @@ func (g *Generator) generateMockMethod(
 	gf.P()
 
 	// Fill response fields
-	g.generateMockFieldAssignments(gf, method.Output, "resp")
+	g.generateMockFieldAssignments(gf, method.Output, "resp", map[string]bool{})
 
 	gf.P("return resp, nil")
 	gf.P("}")
@@ -165,12 +165,22 @@ func (g *Generator) generateMockMethod(
 }
 
 // generateMockFieldAssignments generates field assignments for a message.
+//
+// visiting holds the full names of the messages on the current path: a message that (directly or
+// indirectly) contains itself is left empty at the point of recursion, so generation terminates.
 func (g *Generator) generateMockFieldAssignments(
 	gf *protogen.GeneratedFile,
 	message *protogen.Message,
 	varName string,
+	visiting map[string]bool,
 ) {
 	messageName := string(message.Desc.Name())
+	fullName := string(message.Desc.FullName())
+	if visiting[fullName] {
+		return
+	}
+	visiting[fullName] = true
+	defer delete(visiting, fullName)
 
 	for _, field := range message.Fields {
 		fieldName := field.GoName
@@ -199,12 +209,12 @@ func (g *Generator) generateMockFieldAssignments(
 			switch {
 			case field.Desc.IsMap():
 				// Handle map fields
-				g.generateMockMapFieldAssignment(gf, field, varName)
+				g.generateMockMapFieldAssignment(gf, field, varName, visiting)
 			case field.Desc.IsList():
 				gf.P("// TODO: Handle repeated message field ", fieldName)
 			default:
 				gf.P(varName, ".", fieldName, " = &", field.Message.GoIdent, "{}")
-				g.generateMockFieldAssignments(gf, field.Message, varName+"."+fieldName)
+				g.generateMockFieldAssignments(gf, field.Message, varName+"."+fieldName, visiting)
 			}
 		case protoreflect.EnumKind,
 			protoreflect.Sint32Kind,
@@ -229,6 +239,7 @@ func (g *Generator) generateMockMapFieldAssignment(
 	gf *protogen.GeneratedFile,
 	field *protogen.Field,
 	varName string,
+	visiting map[string]bool,
 ) {
 	fieldName := field.GoName
 
@@ -258,7 +269,7 @@ func (g *Generator) generateMockMapFieldAssignment(
 		gf.P(varName, ".", fieldName, "[", sampleKey, "] = &", valueField.Message.GoIdent, "{}")
 		// Populate the value message fields
 		mapValueVar := varName + "." + fieldName + "[" + sampleKey + "]"
-		g.generateMockFieldAssignments(gf, valueField.Message, mapValueVar)
+		g.generateMockFieldAssignments(gf, valueField.Message, mapValueVar, visiting)
 	} else {
 		// Value is a scalar type
 		valueType := g.getGoTypeScalar(valueField)
